@@ -4,7 +4,7 @@ from shell import replayers
 ID = "C09"
 LEVEL = "proof"
 FUNCTIONS = ["Broker.net_liquidation_value", "Broker.context", "Broker.rebalance", "RewardSimpleReturn.calculate",
-             "RewardPnL.calculate", "RewardLogReturn.calculate", "LogReturn.calculate", "TradingEnv.step"]
+             "RewardPnL.calculate", "RewardLogReturn.calculate", "LogReturn.calculate", "TradingEnv.step", "TradingEnv.reset"]
 REPLAYERS = [("TradingEnv.step::raises::EndOfEpisodeError::sound", replayers.step_insolvent)]
 LEVEL_TEXT = ("Deductive: net_liquidation_value raises EndOfEpisodeError iff asked to and equity <= 0 (returns the non-positive "
               "value otherwise); Broker.rebalance's insolvent exit is proved to precede every transact and the checkpoint "
@@ -14,6 +14,7 @@ LEVEL_TEXT = ("Deductive: net_liquidation_value raises EndOfEpisodeError iff ask
               "_reward.calculate is the recorded finding D6 (identified by call site; any other escape is reported).")
 EXPLANATION = LEVEL_TEXT
 EXTRA_ASSUMPTIONS = [
+    "TradingEnv.reset is verified to establish the environment invariant that TradingEnv.step assumes at entry and re-establishes at exit, modulo ASSUMED summaries (IState.reset, Transmitter._reset, Transmitter._next, IState.__call__) and TRUSTED small models (sorted() as a permutation ordered by IEvent.__lt__ - itself executed -, Cash() as one fixed cash key with the precondition that the space's base currency is that key, defaultdict(LimitOrderBook) as an empty book table whose rows read NaN : NaN, alive, AbstractContract.verify/Rate.verify, np.inf as an unconstrained constant); the configuration clauses (fees >= 0, contract specs in the property's regime, reward parameters, 0 within the box bounds) are preconditions of reset",
     "ASSUMED contracts (not verified against their bodies here): IState.__call__ (raises nothing), Transmitter._next (StopIteration or two ordered batches); input assumption of TradingEnv._process_*_events (verified otherwise): delivered quotes stay within the property's quantifier",
 ]
 
